@@ -392,7 +392,7 @@ pub fn run(ctx: &Ctx) -> Report {
         E::or(balanced(l), balanced(r))
     }
     let mut stb = Stats::new();
-    for (n, framed) in [(33_000usize, false), (33_000, true)] {
+    for (n, framed) in if scale_factor() < 1.0 { vec![] } else { vec![(33_000usize, false), (33_000, true)] } {
         let mut names: Vec<E> = (0..n).map(|i| E::T(if i % 2 == 0 { Tst::Name(format!("p{i}")) } else { Tst::IName(format!("p{i}")) })).collect();
         for again in [2usize, 40, 32_766, 32_768, 32_770, 32_999] {
             names.push(E::T(if again % 2 == 0 { Tst::Name(format!("p{again}")) } else { Tst::IName(format!("p{again}")) }));
